@@ -1051,6 +1051,11 @@ impl Broker {
 
         self.channels.insert(cookie, channel);
 
+        #[cfg(feature = "statistics")]
+        {
+            self.statistics.num_channels = self.statistics.num_channels.saturating_add(1);
+        }
+
         send!(
             self,
             conn,
@@ -1058,14 +1063,7 @@ impl Broker {
                 serial: req.serial,
                 cookie,
             },
-        )?;
-
-        #[cfg(feature = "statistics")]
-        {
-            self.statistics.num_channels = self.statistics.num_channels.saturating_add(1);
-        }
-
-        Ok(())
+        )
     }
 
     fn close_channel_end(
